@@ -138,19 +138,20 @@ class _FloatPhi:
         return math.exp(-t * t / 2.0) / math.sqrt(2.0 * math.pi)
 
 
-def step_equality_case(Dy, wsign, timeout=900):
+def step_equality_case(Dy, wsign, timeout=900, N=1):
     """C17, step link: integrate_log_conditional_y(p_x, y) EQUALS E_p(x)[ln N(y; Mx+b, Sigma(x))] (Dx=1, one noise unit,
     square A).  Oracle: the two half-lines h<0 / h>=0 with their own constant covariance, quadratic log-densities
     integrated against truncated Gaussian moments written from the textbook formulas with Phi atoms."""
-    cid = f"C17/step-equality/Dx1Dy{Dy}Da{Dy}Dk1/w{'pos' if wsign > 0 else 'neg'}"
-    cfg = dict(clause="step link: returned value equals the true expected log-density", Dx=1, Dy=Dy, Da=Dy, Dk=1, weight_sign=wsign)
+    cid = f"C17/step-equality/Dx1Dy{Dy}Da{Dy}Dk1/w{'pos' if wsign > 0 else 'neg'}" + (f"/N{N}" if N > 1 else "")
+    cfg = dict(clause="step link: returned value equals the true expected log-density", Dx=1, Dy=Dy, Da=Dy, Dk=1, weight_sign=wsign,
+               N=N, calling_convention="N observations paired with N prior components")
 
     def declare(b):
         b.free("M", (1, Dy, 1)); b.free("bv", (1, Dy)); b.free("A", (1, Dy, Dy))
         b.pos("wabs", (1, 1)); b.free("w0", (1,))
         b.derived("W", (1, 2), lambda I, ops: np.array([[I["w0"][0], I["wabs"][0, 0] * ops.c(wsign)]], dtype=object))
-        b.spd("Sx", 1, 1); b.free("mx", (1, 1)); b.free("y", (1, Dy))
-        b.phi_slots(3)
+        b.spd("Sx", N, 1); b.free("mx", (N, 1)); b.free("y", (N, Dy))
+        b.phi_slots(3 * N)
 
     def fn(**A):
         from ..phi import patched_norm
@@ -162,36 +163,39 @@ def step_equality_case(Dy, wsign, timeout=900):
 
     def claims(I, O, ops):
         M, bb, A_ = I["M"][0], I["bv"][0], I["A"][0]
-        y = I["y"][0]
         w0 = I["W"][0, 0]; w = I["W"][0, 1]
-        m = I["mx"][0, 0]
         phi = ops.ctx.phi if ops.symbolic else _FloatPhi()
-        s = ops.sqrt(I["Sx"][0, 0, 0])
         c = -w0 / w
         S0 = spec.mm(A_, A_.T)
         S1 = S0.copy()
         for i in range(Dy):
             for j in range(Dy):
                 S1[i, j] = S1[i, j] + A_[i, 0] * A_[j, 0]
+        want = ops.zeros((N,))
+        for n in range(N):
+            y = I["y"][n]
+            m = I["mx"][n, 0]
+            s = ops.sqrt(I["Sx"][n, 0, 0])
 
-        def quad_coeffs(Sg):
-            """ln N(y; M x + b, Sg) = q0 + q1 x + q2 x^2"""
-            Li, d = spec.inv(ops, Sg)
-            r0 = y - bb            # residual at x = 0
-            r1 = -M[:, 0]          # d residual / dx
-            q0 = ops.c(Fraction(-1, 2)) * spec.quad(r0, Li, r0) - ops.c(Fraction(1, 2)) * ops.lnabs(d) - ops.c(Fraction(Dy, 2)) * ops.ln2pi()
-            q1 = -spec.quad(r0, Li, r1)
-            q2 = ops.c(Fraction(-1, 2)) * spec.quad(r1, Li, r1)
-            return q0, q1, q2
-        if wsign > 0:
-            reg0 = trunc_moments(ops, phi, m, s, None, c); reg1 = trunc_moments(ops, phi, m, s, c, None)
-        else:
-            reg0 = trunc_moments(ops, phi, m, s, c, None); reg1 = trunc_moments(ops, phi, m, s, None, c)
-        tot = ops.zero()
-        for (F0, F1, F2), Sg in ((reg0, S0), (reg1, S1)):
-            q0, q1, q2 = quad_coeffs(Sg)
-            tot = tot + q0 * F0 + q1 * F1 + q2 * F2
-        return [("step link: integrate_log_conditional_y(p_x, y) = E_p(x)[ln p(y|x)]", O["val"], tot)]
+            def quad_coeffs(Sg):
+                """ln N(y; M x + b, Sg) = q0 + q1 x + q2 x^2"""
+                Li, d = spec.inv(ops, Sg)
+                r0 = y - bb            # residual at x = 0
+                r1 = -M[:, 0]          # d residual / dx
+                q0 = ops.c(Fraction(-1, 2)) * spec.quad(r0, Li, r0) - ops.c(Fraction(1, 2)) * ops.lnabs(d) - ops.c(Fraction(Dy, 2)) * ops.ln2pi()
+                q1 = -spec.quad(r0, Li, r1)
+                q2 = ops.c(Fraction(-1, 2)) * spec.quad(r1, Li, r1)
+                return q0, q1, q2
+            if wsign > 0:
+                reg0 = trunc_moments(ops, phi, m, s, None, c); reg1 = trunc_moments(ops, phi, m, s, c, None)
+            else:
+                reg0 = trunc_moments(ops, phi, m, s, c, None); reg1 = trunc_moments(ops, phi, m, s, None, c)
+            tot = ops.zero()
+            for (F0, F1, F2), Sg in ((reg0, S0), (reg1, S1)):
+                q0, q1, q2 = quad_coeffs(Sg)
+                tot = tot + q0 * F0 + q1 * F1 + q2 * F2
+            want[n] = tot
+        return [("step link: integrate_log_conditional_y(p_x, y)[n] = E_{p_n(x)}[ln p(y_n|x)]", O["val"], want)]
 
     return Case(cid, PROP, cfg, declare, fn, claims, timeout=timeout)
 
@@ -212,9 +216,9 @@ def _link_deriv(ops, link, h):
     raise ValueError(link)
 
 
-def _declare_zero_weight(b, Dx, Dy, Dk, signs, with_dir):
+def _declare_zero_weight(b, Dx, Dy, Dk, signs, with_dir, N=1):
     b.free("M", (1, Dy, Dx)); b.free("bv", (1, Dy)); b.free("A", (1, Dy, Dy))
-    b.spd("Sx", 1, Dx); b.free("mx", (1, Dx)); b.free("y", (1, Dy))
+    b.spd("Sx", N, Dx); b.free("mx", (N, Dx)); b.free("y", (N, Dy))
     b.pos("c", (Dk,))
     for k in range(Dk):
         # T_k = exp(c_k / 2): cosh / tanh / exp of the offset and of omega = |offset| become rational in T_k
@@ -224,15 +228,15 @@ def _declare_zero_weight(b, Dx, Dy, Dk, signs, with_dir):
         b.free("wdir", (Dk, Dx))
 
 
-def zero_weight_case(link, Dx, Dy, Dk, signs, timeout=900):
+def zero_weight_case(link, Dx, Dy, Dk, signs, timeout=900, N=1):
     """C17, 'exactly zero gap at zero weights' (exp, cosh-1): with the input weights of all noise units equal to 0
     the value of integrate_log_conditional_y IS the expected log-density of the (then homoscedastic) model."""
     sg = "".join("p" if s > 0 else "m" for s in signs)
-    cid = f"C17/zero-weight-exact/{link}/Dx{Dx}Dy{Dy}Da{Dy}Dk{Dk}/w0{sg}"
-    cfg = dict(clause="bound is exact at zero input weights", link=link, Dx=Dx, Dy=Dy, Da=Dy, Dk=Dk, offset_signs=list(signs))
+    cid = f"C17/zero-weight-exact/{link}/Dx{Dx}Dy{Dy}Da{Dy}Dk{Dk}/w0{sg}" + (f"/N{N}" if N > 1 else "")
+    cfg = dict(clause="bound is exact at zero input weights", link=link, Dx=Dx, Dy=Dy, Da=Dy, Dk=Dk, offset_signs=list(signs), N=N)
 
     def declare(b):
-        _declare_zero_weight(b, Dx, Dy, Dk, signs, False)
+        _declare_zero_weight(b, Dx, Dy, Dk, signs, False, N)
 
     def fn(**A):
         import jax.numpy as jnp
@@ -243,8 +247,10 @@ def zero_weight_case(link, Dx, Dy, Dk, signs, timeout=900):
         return {"val": c.integrate_log_conditional_y(px, y=A["y"])}
 
     def claims(I, O, ops):
-        return [("zero weights: integrate_log_conditional_y(p_x, y) = E_p(x)[ln N(y; Mx+b, AA' + A_k diag(link(w0)) A_k')]",
-                 O["val"], _homoscedastic_expectation(I, ops, link, Dx, Dy, Dk))]
+        want = ops.zeros((N,))
+        for n in range(N):
+            want[n] = _homoscedastic_expectation(I, ops, link, Dx, Dy, Dk, n)
+        return [("zero weights: integrate_log_conditional_y(p_x, y)[n] = E_{p_n(x)}[ln N(y_n; Mx+b, AA' + A_k diag(link(w0)) A_k')]", O["val"], want)]
 
     return Case(cid, PROP, cfg, declare, fn, claims, timeout=timeout)
 
@@ -323,16 +329,16 @@ def _const_cov(I, ops, link, Dy, Dk):
     return Sg
 
 
-def _residual_polys(I, ops, Dx, Dy):
-    M, bb, y = I["M"][0], I["bv"][0], I["y"][0]
+def _residual_polys(I, ops, Dx, Dy, n=0):
+    M, bb, y = I["M"][0], I["bv"][0], I["y"][n]
     return [spec.p_affine(ops, [-M[i, j] for j in range(Dx)], y[i] - bb[i]) for i in range(Dy)]
 
 
-def _homoscedastic_expectation(I, ops, link, Dx, Dy, Dk):
+def _homoscedastic_expectation(I, ops, link, Dx, Dy, Dk, n=0):
     Sg = _const_cov(I, ops, link, Dy, Dk)
     Li, d = spec.inv(ops, Sg)
-    mom = spec.Moments(ops, I["mx"][0], I["Sx"][0])
-    res = _residual_polys(I, ops, Dx, Dy)
+    mom = spec.Moments(ops, I["mx"][n], I["Sx"][n])
+    res = _residual_polys(I, ops, Dx, Dy, n)
     q = ops.zero()
     for i in range(Dy):
         for j in range(Dy):
@@ -345,11 +351,13 @@ def cases(tier, seed=0):
     for Dy in (1, 2):
         for wsign in (1, -1):
             out.append(step_equality_case(Dy, wsign))
+    out.append(step_equality_case(1, 1, N=2)); out.append(step_equality_case(2, -1, N=2))
     for link in ("exp", "cosh"):
         for (Dx, Dy, Dk) in ((1, 1, 1), (2, 2, 1), (1, 2, 2)):
             for signs in itertools.product((1, -1), repeat=Dk):
                 out.append(zero_weight_case(link, Dx, Dy, Dk, list(signs)))
                 out.append(tightness_case(link, Dx, Dy, Dk, list(signs)))
+        out.append(zero_weight_case(link, 1, 1, 1, [1], N=2)); out.append(zero_weight_case(link, 1, 2, 2, [1, -1], N=2))
     shapes = [(1, 1, 1, 1), (2, 2, 2, 1), (2, 2, 2, 2), (1, 1, 2, 1), (1, 1, 2, 2), (2, 2, 3, 2)]   # (Dx, Dy, Da, Dk)
     for link in ("exp", "cosh"):
         for (Dx, Dy, Da, Dk) in shapes:
